@@ -362,6 +362,36 @@ Definition py_own_attr (f : string) : bool :=
      "as_integer_ratio"; "bit_count"; "bit_length"; "conjugate"; "denominator"; "from_bytes";
      "imag"; "is_integer"; "numerator"; "real"; "to_bytes"]%string.
 
+(* LazyLoadedObjectReference.__getattr__ (object_rows.py) -> RowHistory.load_row: a field of a row
+   picked by random_reference is read from the copy the row history pickled when the row was
+   written (hidden fields included; child rows as copies; a forward-reference slot as a plain
+   reference - not modelled).  Rows are never changed after they are written, so the copy has the
+   fields of the heap cell with that (table, id); a row that is not in this run's history
+   (load_row asserts) is outside the fragment.  A field the copy lacks is a KeyError, which - unlike
+   a missing attribute of a live row - is an error of the formula / of `reference`. *)
+Fixpoint find_cell (t : string) (i : Z) (l : list cell) : option cell :=
+  match l with
+  | [] => None
+  | c :: r => if String.eqb (c_table c) t && (c_id c =? i) then Some c else find_cell t i r
+  end.
+
+Definition in_history (h : rh) (t : string) (i : Z) : bool :=
+  existsb (fun r => String.eqb (h_table r) t && (h_id r =? i)) (hrows h).
+
+Definition hist_attr (h : rh) (cells : list cell) (t : string) (i : Z) (f : string) : result value :=
+  if String.eqb f "id" then Ok (VInt i) else
+  if py_own_attr f || String.eqb f "sql_tablename" || String.eqb f "_data" then Err Unsupported else
+  if negb (in_history h t i) then Err Unsupported else
+  match find_cell t i cells with
+  | None => Err Unsupported
+  | Some c =>
+    match lookup f (c_fields c) with
+    | None => Err (DGE "history-attr")
+    | Some (VSlot _) => Err Unsupported
+    | Some w => Ok w
+    end
+  end.
+
 (* names that exist in the evaluation namespace but that the model does not cover *)
 Definition reserved_name (n : string) : bool :=
   existsb (String.eqb n)
@@ -413,8 +443,7 @@ Fixpoint eval_expr (e : env) (x : expr) (s : st) : result (st * value) :=
     | VInt _ | VNull => if py_own_attr f then Err Unsupported else Ok (s1, VUndef)
     | VUndef => dge "undefined"
     | VStr _ => Err Unsupported          (* str has many attributes of its own *)
-    | VRef _ i => if String.eqb f "id" then Ok (s1, VInt i)
-                  else Err Unsupported   (* loads a pickled copy of the row from the history *)
+    | VRef t i => do w <- hist_attr (hist (rnd s1)) (heap s1) t i f; Ok (s1, w)
     end
   | EAdd a b =>
     do '(s1, v1) <- eval_expr e a s; do '(s2, v2) <- eval_expr e b s1;
@@ -489,7 +518,7 @@ Definition getattr_path (s : st) (v : value) (part : string) : result (st * valu
   | VSlot n => if String.eqb part "id" then do '(s1, i) <- touch_slot s n; Ok (s1, VInt i)
                else Err Unsupported
   | VStr _ => Err Unsupported           (* str has attributes of its own *)
-  | VRef _ i => if String.eqb part "id" then Ok (s, VInt i) else Err Unsupported
+  | VRef t i => do w <- hist_attr (hist (rnd s)) (heap s) t i part; Ok (s, w)
   | _ => dge "reference-attr"
   end.
 
